@@ -647,12 +647,18 @@ func throttlePairRule(r *R, rule string, fn *ssa.Function, exits []ssa.Instructi
 				avoid[x] = true
 			}
 		})
+		// an explicit Release in this function (early return before the writer is started) also gives the token back
+		for _, rl := range CallsIn(fn, "(*"+arv+".throttle).Release") {
+			if _, isDefer := rl.(*ssa.Defer); !isDefer {
+				avoid[rl.(ssa.Instruction)] = true
+			}
+		}
 		leak := false
 		for _, e := range exits {
 			if Reach(fn, acq.(ssa.Instruction), e, nil, avoid) {
 				leak = true
 			}
 		}
-		r.Check(!leak, rule, fn, "throttle.Acquire", acq.Pos(), "handed to a goroutine that always releases", "a write-throttle token can leak: after enough leaks every writer blocks forever")
+		r.Check(!leak, rule, fn, "throttle.Acquire", acq.Pos(), "handed to a goroutine that always releases (or released before returning)", "a write-throttle token can leak: after enough leaks every writer blocks forever")
 	}
 }
